@@ -1,9 +1,9 @@
 """C14 — see DESIGN.md section 6/C14 and coq/props/C14.v; shared machinery in lib/conv_props.py."""
 import conv_props as CP
 
-STREAMS = {"C14": ("site", "alias"), "C03": ("site", "sys", "rand"), "C01": ("site", "alias", "sys", "rand")}["C14"]
+STREAMS = {"C14": ("site", "alias", "hookfuzz"), "C03": ("site", "sys", "rand"), "C01": ("site", "alias", "sys", "rand")}["C14"]
 RULES = {
-    "C14": "every union occurrence of the metamodel (property / array element / map value / result) x every flattened alternative x {minimal, near-maximal} value, heterogeneous arrays, every metamodel alias as a top-level target; oracle: parses, well-typed, re-serialises to the input; distinct = distinct (target, input)",
+    "C14": "every union occurrence of the metamodel (property / array element / map value / result) x every flattened alternative x {minimal, near-maximal} value, heterogeneous arrays, every metamodel alias as a top-level target; oracle: parses, well-typed, re-serialises to the input; PLUS a differential fuzz of every union type as a target of its own (inputs built from member values by dropping / adding / re-kinding the probed keys and literals, mixed arrays, primitives: mostly invalid — demanded: model = real converter on every path of every hook); distinct = distinct (target, input)",
     "C03": "every structure at three systematic (alternative, depth) settings + seeded random valid values + the per-site stream; oracle: the real object graph is well-typed against the resolved annotations at every depth; distinct = distinct (target, input)",
     "C01": "per-site stream + every metamodel alias as target + every structure at three systematic settings + seeded random valid values of every structure / request / response / notification; oracle: unstructure(structure(j)) equals j up to explicit nulls; distinct = distinct (target, input)",
 }
